@@ -102,7 +102,11 @@ pub fn run_case(ctx: &mut Ctx, fam: &str, k: u64, r: &mut Rng) {
         // one long dimension (9..40) somewhere, so that vectorised / blocked inner loops meet their tails
         let mut full = rand_shape(r, 3, 3);
         let i = r.below(full.len());
-        full[i] = r.range(9, 40);
+        full[i] = super::shapes::long_dim(r);
+        if r.chance(1, 6) {
+            // ranks 5..6 with unit dimensions inside
+            full = super::shapes::high_rank_shape(r);
+        }
         da = if r.chance(1, 2) { full.clone() } else { partner(r, &full) };
         db = if r.chance(1, 2) { full.clone() } else { partner(r, &full) };
         va = (0..numel(&da)).map(|_| 0.25 * r.int(-36, 36)).collect();
